@@ -110,6 +110,39 @@ Proof. exact end_merge_reconciles. Qed.
 Theorem C04_advance_composes : forall q t1 t2 e, t1 <= t2 -> advance q t2 (advance q t1 e) = advance q t2 e.
 Proof. exact advance_advance. Qed.
 
+(* a merge of COMMITTED segments -- proposed by IndexWriter::merge or by the merge policy -- is given the
+   LAST COMMIT's opstamp as target (consider_merge_options: commit_opstamp for committed candidates) *)
+Theorem C04_committed_merge_target : forall policy srcs s,
+  srcs <> [] ->
+  policy && existsb (in_merge s) srcs = false ->
+  contains_all (w_unc s) srcs = false -> contains_all (w_com s) srcs = true ->
+  w_merges (start_merge policy srcs s) =
+  w_merges s ++ [mkRunning (w_epoch s) srcs (do_merge (w_queue s) (w_copstamp s) (w_next_seg s) (get_all (w_com s) srcs))].
+Proof. exact committed_merge_target. Qed.
+
+(* hence deletes that are issued but not committed (every operation beyond the sources' cursor is stamped at
+   or after the last commit) are not applied by the merge and not published by end_merge: the merged entry
+   holds all documents of its sources at the same cursor -- the next commit applies them, a rollback forgets them *)
+Theorem C04_committed_merge_ignores_pending : forall q cop seg es c,
+  es <> [] ->
+  Forall (fun e => e_cursor e = c) es ->
+  (forall d, In d (skipn c q) -> cop <= del_op d) ->
+  do_merge q cop seg es =
+    (if forallb (fun e => negb (nonempty e)) es then None
+     else Some (mkEntry seg (concat (map e_docs es)) c)) /\
+  reconcile q cop (mkEntry seg (concat (map e_docs es)) c) = mkEntry seg (concat (map e_docs es)) c.
+Proof. exact committed_merge_ignores_pending. Qed.
+
+(* non-vacuity: a pending delete, a policy merge of the committed segments, a searcher before any commit,
+   then a rollback: nothing is lost; a commit instead applies the delete *)
+Definition ex_pending_policy : list op :=
+  [Add 0 0; Add 1 1; Commit; Add 2 1; Add 3 0; Commit; Del (ByTag 1); Add 4 1; Finalize; StartPolicyMerge [0; 1]; EndMerge 0%nat].
+Example C04_example_pending_policy :
+  published (run ex_pending_policy init) = [0; 1; 2; 3] /\
+  published (run (ex_pending_policy ++ [Rollback]) init) = [0; 1; 2; 3] /\
+  published (run (ex_pending_policy ++ [Commit]) init) = [0; 3; 4].
+Proof. vm_compute. repeat split; reflexivity. Qed.
+
 (* F0401: IndexWriter::merge on uncommitted segments whose delete cursors differ.  The state machine
    (tied to the implementation on these very histories) publishes something else than the same
    history without the merge: a document added after the delete disappears (older segment first), or
@@ -174,4 +207,6 @@ Print Assumptions C04_start_merge_transparent.
 Print Assumptions C04_end_merge_discarded.
 Print Assumptions C04_end_merge_reconciles.
 Print Assumptions C04_advance_composes.
+Print Assumptions C04_committed_merge_target.
+Print Assumptions C04_committed_merge_ignores_pending.
 Print Assumptions C04_explicit_uncommitted_merge_refuted.
